@@ -8,7 +8,14 @@
 # Prints DETERMINISM-OK or DETERMINISM-FAIL: <what>.
 export GOFLAGS=-mod=mod GOPROXY=off GOSUMDB=off GOTOOLCHAIN=local
 repo=$(realpath "$1")
-d=$(mktemp -d /tmp/codetXXXXXX); trap 'rm -rf "$d"' EXIT
+# fixed scratch path (see cotool.sh): concurrent runs on different repositories get different names
+d=""
+for i in $(seq 0 15); do
+  exec 9>"/tmp/codet-slot-$i.lock"
+  if flock -n 9; then d=/tmp/codet-slot-$i; break; fi
+done
+[ -n "$d" ] || { d=$(mktemp -d /tmp/codetXXXXXX); }
+rm -rf "$d"; mkdir -p "$d"; trap 'rm -rf "$d"' EXIT
 rsync -a --exclude .git --exclude example --exclude 'rewriter/test' "$repo/" "$d/"
 mkdir -p "$d/zzd/tool" "$d/zzd/a/src/p" "$d/zzd/c/src/p" "$d/zzd/c/src/q"
 cat > "$d/zzd/tool/main.go" <<'GO'
